@@ -110,6 +110,7 @@ type resT struct {
 	Inputs     int              `json:"inputs"`
 	Deepest    int              `json:"deepest"`
 	Loops      int              `json:"loops"`
+	Spelled    int              `json:"spelled"` // inputs also run in their shorthand spelling
 	Mismatches []mismatch       `json:"mismatches,omitempty"`
 	Trace      []map[string]any `json:"trace,omitempty"`
 	Keys       []string         `json:"keys,omitempty"`
@@ -349,6 +350,8 @@ type pair struct {
 	rbNS      map[string]string // rebuilt: observed links after the canonical namespaces
 	rbNSVR    bool
 	sites     map[string]site
+	lastOK    bool // verdict and value of the scope's Unserialize in the latest compare()
+	lastVal   any
 	late      bool // evaluating the inputs that were put off because they may recurse forever
 }
 
@@ -545,6 +548,7 @@ func (p *pair) compare(res *resT, mkIn func() any, exp *expT, label map[string]a
 	a := guarded(func() (any, error) { return p.orig.Unserialize(mkIn()) })
 	b := guarded(func() (any, error) { return p.inl.Unserialize(mkIn()) })
 	res.Evals += 2
+	p.lastOK, p.lastVal = a.ok, a.v
 	if a.pi != nil || b.pi != nil {
 		pi := a.pi
 		if pi == nil {
